@@ -34,6 +34,9 @@ type c04Input struct {
 	ResetLevel string    `json:"resetLevel"` // top | package | interface | unset
 	// an unrelated recursive package with a listed sub-package sets the opposite of every option
 	Decoy bool `json:"decoy,omitempty"`
+	// two more interfaces of the same package, mocked into the same output file before (Alpha) and after (Zeta) the
+	// interface under test, whose own interface-level options say the opposite: options are per mock, not per file
+	Siblings bool `json:"siblings,omitempty"`
 	Methods    []BMethod `json:"methods"`
 	FuncOn     []bool    `json:"funcOn"` // initial state of every <M>Func
 	Ops        []C04Op   `json:"ops"`
@@ -63,6 +66,7 @@ func (c04) Generate(c *Ctx) []any {
 			in.ResetLevel = "unset"
 		}
 		in.Decoy = i%3 != 2
+		in.Siblings = (i/4)%2 == 0
 		nm := 1 + r.Intn(3)
 		in.Generic = r.Intn(4) == 0
 		bNames := bNamesFor(r, i)
@@ -149,6 +153,11 @@ func c04Config(in *c04Input) string {
 	if in.StubLevel == "interface" || in.ResetLevel == "interface" {
 		b.WriteString("        config:\n")
 		td("          ", "interface")
+	}
+	if in.Siblings {
+		for _, n := range []string{"Alpha", "Zeta"} {
+			fmt.Fprintf(&b, "      %s:\n        config:\n          template-data:\n            stub-impl: %v\n            with-resets: %v\n", n, !in.StubImpl, !in.WithResets)
+		}
 	}
 	if in.Decoy {
 		y, _ := decoyPackages(c04DecoyLines(in))
@@ -360,6 +369,9 @@ func (c04) Run(c *Ctx, raw json.RawMessage) Case {
 	}
 	defer os.RemoveAll(dir)
 	tags := []string{fmt.Sprintf("stub-%v", in.StubImpl), fmt.Sprintf("resets-%v", in.WithResets), "stub-at-" + in.StubLevel, "resets-at-" + in.ResetLevel}
+	if in.Siblings {
+		tags = append(tags, "siblings-opposite")
+	}
 	inst := ""
 	if in.Generic {
 		inst = "[Named]"
